@@ -224,13 +224,23 @@ fn kx_marc_freeze() {
     let (b, g) = any_marc();
     let (i, x) = plant_m(&b);
     let f = b.freeze();
-    // re-labelled: same address, same block, count unchanged, bytes_mut::SHARED_VTABLE
+    // re-labelled: same address, same block, count unchanged
     assert!(f.as_ptr() as usize == g.base as usize + g.off && f.len() == g.len);
     assert!(count(&g) == g.k && block_intact(&g));
-    assert!(f.is_unique() == (g.k == 1));
     if g.len > 0 { assert!(f[i] == x); }
-    let c = f.clone(); // the vtable it carries is the bytes_mut one: clone increments this block
-    assert!(count(&g) == g.k + 1);
+    // it carries the bytes_mut vtable: its uniqueness test reads THIS block's count
+    assert!(f.is_unique() == (g.k == 1));
+    core::mem::forget(f);
+}
+
+// @ob props=C01,C03,C07 tier=quick kind=Kinf fns=BytesMut::freeze,shared_v_clone
+#[kani::proof]
+fn kx_marc_freeze_then_clone() {
+    let (base, vcap) = alloc_sym();
+    let (b, g) = marc_on(base, vcap, 1);
+    let f = b.freeze();
+    let c = f.clone(); // through the vtable it carries: increments this block
+    assert!(count(&g) == 2 && c.as_ptr() as usize == f.as_ptr() as usize && c.len() == f.len());
     core::mem::forget(c);
     core::mem::forget(f);
 }
